@@ -129,7 +129,9 @@ func c13enum(c *Ctx) {
 			kinds := []error{mon.ErrInjected, os.ErrClosed, io.ErrClosedPipe, io.ErrShortWrite, syscall.ENOSPC, syscall.EPIPE,
 				fmt.Errorf("write /var/log/app.log: %w", os.ErrClosed), &os.PathError{Op: "write", Path: "/dev/stdout", Err: syscall.EBADF}, io.EOF,
 				// error values whose dynamic type is not comparable (a slice-typed aggregate, a struct holding a map)
-				rejectedErr{"quota", "retention"}, detailErr{why: "throttled", tags: map[string]string{"zone": "b"}}}
+				rejectedErr{"quota", "retention"}, detailErr{why: "throttled", tags: map[string]string{"zone": "b"}},
+				// errors that call themselves temporary: no destination is handed a record twice for them
+				syscall.EAGAIN, syscall.EINTR, &os.PathError{Op: "write", Path: "/dev/pts/3", Err: syscall.EAGAIN}}
 			return kinds[(errKind+attempt)%len(kinds)]
 		}
 		pool = append(pool, w)
